@@ -623,7 +623,24 @@ func (h *Harness) durableIterStep(r *dbcheck.Run) {
 		return
 	}
 	db := r.DB()
-	canon, err := dbcheck.ReadCanon(db.NewIter, &pebble.IterOptions{OnlyReadGuaranteedDurable: true})
+	newIter := db.NewIter
+	if r.Rng().IntN(2) == 0 {
+		// reach the durable-only view through SetOptions on an ordinary iterator
+		// (positioned first, so that its stacks are built)
+		newIter = func(o *pebble.IterOptions) (*pebble.Iterator, error) {
+			plain := *o
+			plain.OnlyReadGuaranteedDurable = false
+			it, err := db.NewIter(&plain)
+			if err != nil {
+				return nil, err
+			}
+			it.First()
+			it.SetOptions(o)
+			return it, nil
+		}
+		r.Count("durable_only_views_via_setoptions", 1)
+	}
+	canon, err := dbcheck.ReadCanon(newIter, &pebble.IterOptions{OnlyReadGuaranteedDurable: true})
 	if err != nil {
 		r.Fail("durable-iter-error", "OnlyReadGuaranteedDurable iterator: %v", err)
 		return
